@@ -10,7 +10,7 @@ import (
 	"verifharness/kit"
 )
 
-const rule = "inputs: closed oriented manifolds validated by the independent topology kit before use (marching cubes of CSG trees / trilinear fields / lattice solids with 0-8 search iterations — any genus, several components, slivers —, icospheres, boxes, edge-subdivided boxes and edge-subdivided versions of all of these (long coplanar runs), cylinders, cones, tori with 3..18 stops, polar meshes, optionally with a second scaled copy and with hash jitter below a quarter of the shortest edge; 2D: marching-squares outlines, polar outlines, sector polygons with exactly colinear runs, rectangles, optionally jittered); one operation with random parameters per case in the single-operation clauses and 2-4 operations in the chain clauses. Non-trivial: the operation(s) changed the mesh (face list differs from the input's). Distinct: hash of the JSON case."
+const rule = "inputs: closed oriented manifolds validated by the independent topology kit before use (marching cubes of CSG trees / trilinear fields / lattice solids with 0-8 search iterations — any genus, several components, slivers —, icospheres, boxes, edge-subdivided boxes and edge-subdivided versions of all of these (long coplanar runs), cylinders, cones, tori with 3..18 stops, polar meshes, optionally with a second scaled copy and with hash jitter below a quarter of the shortest edge; 2D: marching-squares outlines, polar outlines, sector polygons with exactly colinear runs or with points bent off their edges by amounts around the EliminateColinear threshold, rectangles, optionally jittered); one operation with random parameters per case in the single-operation clauses and 2-4 operations in the chain clauses. Operations that orient new faces by comparing normals (FlipDelaunay, Subdivider) are not applied to meshes with a face of 2*area/longest^2 < 1e-9. Non-trivial: the operation(s) changed the mesh (face list differs from the input's). Distinct: hash of the JSON case."
 
 const budget = 60 * time.Second
 
@@ -120,10 +120,10 @@ func TestProp(t *testing.T) {
 	runtime.GOMAXPROCS(2)
 	kit.Run(t, "C10", rule,
 		kit.Clause[case3]{Name: "C10/3d/decimate", Quick: 1200, Thorough: 30000, Budget: budget, Fresh: true, Gen: single3("decimate", allKinds3, false, true, true, true), Check: checkOps3},
-		// split search with alternatives: ~2 ms per case on average (slowest cases tens of ms) when the search is
-		// bounded, so a 5 s watchdog is a factor > 100 on the slowest case; an unbounded search on a valence-22
-		// hole does not finish in hours.  (The replay of the known finding costs 3x this budget in every run.)
-		kit.Clause[case3]{Name: "C10/3d/decimate-split", Quick: 500, Thorough: 12000, Budget: 5 * time.Second, Fresh: true, Gen: genDecimateSplit, Check: checkOps3},
+		// split search with alternatives: ~2 ms per case on average when the search is bounded; the slowest of 3000
+		// cases took 0.57 s at load average 75 on 16 cores, where a 5 s watchdog fired spuriously once in 20 runs.  12 s is a factor > 20 on that; an unbounded search on a 40-gon hole does not
+		// finish at all.  (The replay of the known finding costs 3x this budget in every run while it persists.)
+		kit.Clause[case3]{Name: "C10/3d/decimate-split", Quick: 500, Thorough: 12000, Budget: 12 * time.Second, Fresh: true, Gen: genDecimateSplit, Check: checkOps3},
 		kit.Clause[case3]{Name: "C10/3d/eliminate-coplanar", Quick: 1200, Thorough: 30000, Budget: budget, Fresh: true, Gen: genCoplanar, Check: checkOps3},
 		kit.Clause[case3]{Name: "C10/3d/eliminate-edges", Quick: 600, Thorough: 15000, Budget: budget, Fresh: true, Gen: single3("edges", allKinds3, true, true, true, false), Check: checkOps3},
 		kit.Clause[case3]{Name: "C10/3d/flip-delaunay", Quick: 600, Thorough: 15000, Budget: budget, Fresh: true, Gen: single3("flip", allKinds3, true, true, true, true), Check: checkOps3},
